@@ -192,7 +192,6 @@ impl Walrus {
             }
 
             // Tail path
-            let tail_snapshot = (info.tail_block_id, info.tail_offset);
             drop(info);
             #[cfg(feature = "verif")]
             crate::wal::verif::sched_point("rn_tail_snapshot");
@@ -215,6 +214,23 @@ impl Walrus {
             let mut info = info_arc.write().map_err(|_| {
                 io::Error::new(io::ErrorKind::Other, "col info write lock poisoned")
             })?;
+            // Blocks the writer sealed since the top of the loop come first. Progress on such a
+            // block that is only known from the persisted position is carried over here, as
+            // sealing carries over in-memory progress
+            if info.cur_block_idx < info.chain.len() {
+                if let Some((tb, toff)) = persisted_tail {
+                    if info.tail_block_id != tb {
+                        if let Some(idx) = info.chain.iter().position(|b| b.id == tb) {
+                            if info.cur_block_idx <= idx {
+                                info.cur_block_idx = idx;
+                                info.cur_block_offset = toff.min(info.chain[idx].used);
+                            }
+                            persisted_tail = None;
+                        }
+                    }
+                }
+                continue;
+            }
             if let Some((tail_block_id, tail_off)) = persisted_tail {
                 if tail_block_id != active_block.id {
                     if let Some(idx) = info
@@ -279,19 +295,19 @@ impl Walrus {
                     }
                 }
             }
-            drop(info);
-            #[cfg(feature = "verif")]
-            crate::wal::verif::sched_point("rn_before_tail_read");
+            // The column lock is held from here to the commit (as on the sealed path): with the lock
+            // released, another consumer could take the same entry, and the writer could seal this
+            // block and re-base the cursor on the offset known at that moment - either way the entry
+            // read below would be delivered twice.
 
-            // Choose the best known tail offset: prefer in-memory snapshot for current active block
+            // Choose the best known tail offset: prefer in-memory progress for current active block
             let (tail_block_id, mut tail_off) = match persisted_tail {
                 Some(v) => v,
                 None => return Ok(None),
             };
             if tail_block_id == active_block.id {
-                let (snap_id, snap_off) = tail_snapshot;
-                if snap_id == active_block.id {
-                    tail_off = tail_off.max(snap_off);
+                if info.tail_block_id == active_block.id {
+                    tail_off = tail_off.max(info.tail_offset);
                 }
             } else {
                 // If writer rotated and persisted tail points elsewhere, loop above will fold/rebase
@@ -301,17 +317,17 @@ impl Walrus {
                 // Loop to next iteration; `info` will be reacquired at loop top
                 continue;
             }
+            // A snapshot whose block has been sealed (and, the chain being exhausted, consumed)
+            // meanwhile is stale: take a new one
+            if info.chain.iter().any(|b| b.id == active_block.id) {
+                persisted_tail = None;
+                continue;
+            }
 
             if tail_off < written {
                 match active_block.read(tail_off) {
                     Ok((entry, consumed)) => {
                         let new_off = tail_off + consumed as u64;
-                        #[cfg(feature = "verif")]
-                        crate::wal::verif::sched_point("rn_before_tail_commit");
-                        // Reacquire column lock to update in-memory progress, then decide persistence
-                        let mut info = info_arc.write().map_err(|_| {
-                            io::Error::new(io::ErrorKind::Other, "col info write lock poisoned")
-                        })?;
                         let mut maybe_persist = None;
                         if checkpoint {
                             info.tail_block_id = active_block.id;
